@@ -164,8 +164,11 @@ fn choose_arg_from_list_or_tail(
     if index >= args.len() {
         if let Some(t) = tail {
             let target_shift = index - args.len();
+            // Path of element number target_shift of the tail list: that many
+            // "rest" steps (low 1 bits), one "first" step (a 0 bit) and the
+            // terminating 1 bit: 2, 5, 11, 23, ...
             let target_path =
-                (two.clone() << target_shift) | (((two << target_shift) - bi_one()) >> 2);
+                (two.clone() << target_shift) | (((two << target_shift) - bi_one()) >> 1);
             return Ok(Rc::new(BodyForm::Call(
                 callsite.clone(),
                 vec![
